@@ -85,6 +85,12 @@ def circuit_boolean_optimizer(
         ):
             continue
 
+        # The compiler may satisfy `a = b` by renaming instead of emitting gates
+        if not preserve and any(
+            qc_sec.qubit_map.get(s) != i for i, s in enumerate(symbols)
+        ):
+            continue
+
         # Replace the circuit section with the new one
         qc_new.gates[section.index[0] : section.index[1]] = qc_sec.gates
 
